@@ -61,22 +61,7 @@ def rsp_of(cmd):
 def prove(work: Path):
     """TLAPS: Spec => []ReadsOwn for EVERY graph and any number of jobs, provided no two edges name one response file
     (ScratchProof.tla).  -> (ok, summary line)"""
-    import subprocess
-
-    d = work / "scr-proof"
-    d.mkdir(parents=True, exist_ok=True)
-    for f in ("Scratch.tla", "ScratchProof.tla"):
-        shutil.copy(common.SPEC / f, d / f)
-    try:
-        p = subprocess.run(["tlapm", "--toolbox", "0", "0", "ScratchProof.tla"], cwd=str(d), stdout=subprocess.PIPE,
-                           stderr=subprocess.STDOUT, text=True, errors="replace", timeout=1500)
-    except (OSError, subprocess.TimeoutExpired) as e:
-        return None, f"tlapm did not finish: {e}"
-    m = re.search(r"All (\d+) obligations? proved", p.stdout)
-    if m:
-        return True, f"tlapm: all {m.group(1)} obligations proved"
-    m = re.search(r"(\d+)/(\d+) obligations failed", p.stdout)
-    return False, ("tlapm: " + (m.group(0) if m else p.stdout[-300:]))
+    return common.run_tlapm("ScratchProof", ("Scratch",))
 
 
 def run(chk, work: Path):
